@@ -172,6 +172,9 @@ def _build_inner(kind, row, meta):
         ws = list(d.inputs())
         if ws and meta:
             n = d.add_op(ops.Noop(), ws[0], metadata={"m": 1})
+            # an entry set after the node exists, holding None (seeded change C08-14: None-valued entries pruned in place
+            # from a dict the copy shares with B)
+            d.hugr[n].metadata["late"] = None
             ws[0] = n[0]
         d.set_outputs(*ws)
         return d
@@ -220,6 +223,19 @@ def _builder_oracle(spec, fails):
         outer = top.add_nested()
         if wires:
             extra_links = [((top.input_node.idx, -1), (outer.parent_node.idx, -1))]
+    elif where == "block_outer":
+        # the insertion happens inside a basic block of a CFG that itself sits in a nested region; the wires come from
+        # OUTSIDE the CFG, two regions up: the state-order link goes from their source to the ancestor of the target that
+        # is a sibling of the source — the nested region's node, not the CFG (seeded change C08-13)
+        from hugr.build import cfg as bcfg
+
+        top = bdfg.Dfg(*outer_row)
+        wires = list(top.inputs())
+        mid = top.add_nested()
+        c = mid.add_cfg()
+        outer = c.add_entry()
+        if wires:
+            extra_links = [((top.input_node.idx, -1), (mid.parent_node.idx, -1))]
     elif where == "block":
         # the insertion happens inside a basic block; the wires come from a block that dominates it
         from hugr.build import cfg as bcfg
@@ -274,6 +290,12 @@ def _builder_oracle(spec, fails):
     _iso_failures(site, a_plus, b_before, after, mapping, outer.parent_node.idx, inner.hugr.root.idx, fails)
     if C04.snapshot(inner.hugr) != b_snap:
         fails.append(Failure(site, "B-modified"))
+    else:
+        nb_after, _ = _dump(inner.hugr)
+        for i, d0 in nodes_b.items():
+            if nb_after.get(i, {}).get("meta") != d0["meta"]:
+                fails.append(Failure(site, "B-modified", f"metadata of node {i} of B: {d0['meta']!r} -> {nb_after.get(i, {}).get('meta')!r}"))
+                break
     return fails
 
 
@@ -299,7 +321,7 @@ def cases(rng, tier):
             "kind": rng.choice(["nested", "cfg", "cond", "loop"]),
             "row": [rng.choice(TYS) for _ in range(rng.randint(0, 3))],
             "meta": rng.random() < 0.5, "pre": rng.randint(0, 2),
-            "outer": rng.choice(["dfg", "dfg", "nonlocal", "block"]),
+            "outer": rng.choice(["dfg", "dfg", "nonlocal", "block", "block_outer"]),
         }
 
 
